@@ -134,7 +134,18 @@ func c13Check(cs *drv.Case, fields []ref.Field) {
 	if len(wire) == 0 {
 		return // the documented "empty" error
 	}
-	got, err := uf.ConvertUnknownFields(place(wire, 0))
+	in := append([]byte(nil), wire...)
+	got, err := uf.ConvertUnknownFields(in)
+	// the tree is a value: the caller may reuse its input buffer right away
+	for k := range in {
+		in[k] = 0xFF
+	}
+	if err == nil {
+		_, err2 := uf.ConvertUnknownFields(place(wire, 0)) // guard-page placement as well
+		if err2 != nil {
+			err = err2
+		}
+	}
 	if err != nil {
 		fail("convert-error", "ConvertUnknownFields failed on well-formed fields: %v", err)
 		return
@@ -238,6 +249,37 @@ func monC13(c *drv.Ctx) {
 		cs.Count(true, "siblings", i)
 		cs.C.Obs("sibling-tag cases", 1)
 	})
+	// (2b) large containers: element ids are int16(index); counts around 2^14, 2^15, 2^16
+	c.Stage("large-containers", 4*6, true, func(cs *drv.Case) {
+		n := []int{16384, 16385, 32767, 32768, 32769, 66000}[cs.Idx%6]
+		shape := cs.Idx / 6
+		elems := func(t byte, k int) []ref.Value {
+			out := make([]ref.Value, k)
+			for i := range out {
+				out[i] = ref.Value{T: t, I: int64(i & 0x7f), Bool: i%2 == 0}
+			}
+			return out
+		}
+		var v ref.Value
+		switch shape {
+		case 0:
+			v = ref.Value{T: ref.LIST, VT: ref.BYTE, Elems: elems(ref.BYTE, n)}
+		case 1:
+			v = ref.Value{T: ref.SET, VT: ref.BOOL, Elems: elems(ref.BOOL, n)}
+		case 2:
+			v = ref.Value{T: ref.MAP, KT: ref.BYTE, VT: ref.BOOL, Elems: elems(ref.BYTE, 2*n)}
+			for i := 1; i < len(v.Elems); i += 2 {
+				v.Elems[i].T = ref.BOOL
+			}
+		default:
+			v = ref.Value{T: ref.STRUCT, Fields: []ref.Field{{ID: 1, V: ref.Value{T: ref.LIST, VT: ref.I16, Elems: elems(ref.I16, n)}}, {ID: 2, V: ref.Value{T: ref.I32, I: 5}}}}
+		}
+		cs.Desc = M{"shape": shape, "elements": n}
+		c13Check(cs, []ref.Field{{ID: 3, V: v}, {ID: 4, V: ref.Value{T: ref.I64, I: 1}}})
+		cs.Count(true, "large", shape, n)
+		cs.C.Obs("large-container cases", 1)
+	})
+
 	// (3) every container x element type combination with 0..3 elements (length arithmetic)
 	c.Stage("combo-grid", 11*11*4*3, true, func(cs *drv.Case) {
 		i := cs.Idx
